@@ -1000,3 +1000,135 @@ def mon_c04(case_line, acts):
                              % (have, sorted(pending))))
                 return out
     return out
+
+
+CONNACK_PROPS = {0x11, 0x12, 0x13, 0x15, 0x16, 0x1A, 0x1C, 0x1F, 0x21, 0x22, 0x24, 0x25, 0x26, 0x27, 0x28, 0x29, 0x2A}
+
+
+def connack_conformant(body):
+    """session-present flag of a CONNACK body that a conformant broker accepting the connection may send, else None"""
+    try:
+        if len(body) < 3 or body[0] not in (0, 1) or body[1] != 0:
+            return None
+        c = mqttspec.Cur(body[2:])
+        n = c.var()
+        blk = mqttspec.Cur(c.take(n))
+        if not c.done():
+            return None
+        seen = set()
+        while not blk.done():
+            pid = blk.var()
+            if pid not in CONNACK_PROPS or (pid in seen and pid != 0x26):
+                return None
+            seen.add(pid)
+            shape = mqttspec.PROPS[pid][0]
+            rd = {'b': blk.u8, '2': blk.u16, '4': blk.u32, 'v': blk.var, 's': blk.utf8, 'd': blk.binary}.get(shape)
+            v = rd() if rd else (blk.utf8(), blk.utf8())
+            if pid in (0x24, 0x25, 0x28, 0x29, 0x2A) and v > 1:
+                return None
+            if pid in (0x21, 0x27) and v == 0:
+                return None
+        return body[0]
+    except Exception:
+        return None
+
+
+# ---------------------------------------------------------------- C12: the session can always be reconnected
+def mon_c12(case_line, acts):
+    """every connect() whose transport was healthy (all of its writes, flushes and reads succeeded) and whose broker
+    was conformant (exactly one well-formed CONNACK, reason 0, session present only if no clean start was asked for)
+    must succeed, start with a whole CONNECT, carry nothing partial over and leave a usable session."""
+    out = []
+    for i, a in enumerate(acts):
+        if a.code != 0:
+            continue
+        res = a.result or ''
+        wire = bytearray(); inb = bytearray()
+        healthy = True
+        for e in a.events:
+            if e[0] == 'w':
+                if not e[2]:
+                    healthy = False
+                else:
+                    wire += bytes.fromhex(e[3])
+            elif e[0] == 'f':
+                if e[1] != 'ok':
+                    healthy = False
+            elif e[0] == 'r':
+                if e[2] is None or (e[2] == 0 and e[1] > 0):
+                    healthy = False
+                elif e[2]:
+                    inb += bytes.fromhex(e[3])
+        if not healthy or res in ('PANIC', 'FUEL', 'noconn'):
+            continue
+        prev = acts[i - 1].state if i > 0 and acts[i - 1].state else {}
+        if res.startswith('err BufferTooSmall') or res.startswith('err InsufficientMemory'):
+            if not a.events:
+                # nothing was written: the CONNECT did not fit the transmit arena
+                ret = list_field(prev.get('ret', '[]'))
+                free = int(prev.get('cap', '0') or 0) - sum(int(x.split(':')[2]) for x in ret)
+                clen = None
+                t = case_line.split()
+                cid_first = int(t[3])                      # the configured client id (length token)
+                for j, b in enumerate(acts):
+                    if b.code == 0:
+                        ws = [e for e in b.events if e[0] == 'w']
+                        if ws:
+                            if j > 0 and acts[j - 1].state and 'cid' in acts[j - 1].state:
+                                cid_first = len(acts[j - 1].state['cid']) // 2
+                            # the CONNECT grows and shrinks with the client identifier (assigned by the broker)
+                            clen = ws[0][1] + len(prev.get('cid', '')) // 2 - cid_first
+                            break
+                need = None if clen is None else clen - 1 - len(_varint_bytes(max(clen - 2, 0))) + 5
+                if ret and (need is None or free < need):
+                    out.append(V('connect() on a healthy transport fails with %s: the CONNECT does not fit behind the '
+                                 'retained packets %s of a %s byte arena — and no connection means no acknowledgement '
+                                 'will ever free them' % (res[4:], prev.get('ret'), prev.get('cap')), 'K12'))
+                elif ret:
+                    out.append(V('connect() on a healthy transport fails with %s although %d bytes of the arena are free '
+                                 'and the CONNECT needs %d' % (res[4:], free, need)))
+                continue        # an arena that cannot hold the CONNECT even when empty: no history involved
+        if not a.events:
+            continue
+        # broker conformance
+        pk, tail, problems = mqttspec.parse_client_stream(bytes(wire), strict_flags=False)
+        if not pk or pk[0]['type'] != 'CONNECT' or tail or len(pk) != 1:
+            out.append(V('healthy connect(): the bytes written are not exactly one CONNECT (%s)' % bytes(wire).hex()[:60]))
+            continue
+        frames = parse_server_packets(bytes(inb))
+        if len(frames) != 1 or frames[0][0] != 0x20:
+            continue
+        consumed = sum(1 + len(b) + len(_varint_bytes(len(b))) for _, b in frames)
+        if consumed != len(inb):
+            continue
+        conf = connack_conformant(frames[0][1])
+        if conf is None:
+            continue
+        sp = conf
+        if sp and pk[0].get('clean_start'):
+            continue            # session present although a clean start was asked for: not conformant
+        if not res.startswith('ok'):
+            out.append(V('connect() over a healthy transport to a conformant broker (CONNACK %s) returned "%s"'
+                         % (bytes(inb).hex(), res)))
+            continue
+        st = a.state or {}
+        if st.get('rb', '0') not in ('0', '-') :
+            out.append(V('after connect() the packet reader still holds %s bytes' % st.get('rb')))
+        for key in ('ret', 'ctl', 'rel'):
+            for x in list_field(st.get(key, '[]')):
+                parts = x.split(':')
+                stt = [p for p in parts if p and p[0] in 'WFS' and (p[1:].isdigit() or p in ('F', 'S'))]
+                if stt and stt[0] != 'W0' and not sp == 0:
+                    out.append(V('after connect() a queued entry is not at byte 0: %s' % x))
+        if st.get('live') != '1':
+            out.append(V('connect() returned Ok but the handle is not live'))
+        # usable: the next operation on it, if its own I/O is healthy, does not see a dead connection
+        if i + 1 < len(acts):
+            b = acts[i + 1]
+            ok_io = all(not (e[0] == 'w' and not e[2]) and not (e[0] == 'f' and e[1] != 'ok')
+                        and not (e[0] == 'r' and (e[2] is None and e[3] != 'drop')) for e in b.events)
+            timed = any(e[0] == 't' for e in b.events)      # time passed: keep-alive territory (C10)
+            if b.code in (1, 2, 3, 5, 6, 7) and ok_io and not timed and (b.result or '').startswith('err Disconnected') \
+                    and not any(e[0] == 'r' and e[2] and 'e0' == e[3][:2] for e in b.events):
+                out.append(V('first operation after a successful connect() reports Disconnected without any I/O fault'))
+    return out
